@@ -38,6 +38,12 @@ LEVEL = "exploration"
 KINDS = ("bare", "exact", "super", "wrong", "two")
 WRONG_CANDIDATES = ("truthy-iterable", "str-bytes-safe", "unused-awaitable", "typeddict-unknown-key", "exit-return")
 MAIN = "main"
+# Codes the checker reports inside ErrorWatcher-guarded probes (overload variants, reflected operators, union math,
+# member access on unions, missing await, ...; `self.msg.filter_errors(` in checkexpr.py / checker.py / checkmember.py).
+# A tentative error is never printed, so these codes are disabled whether or not the program's output shows them:
+# the prediction is unchanged (exactly the infos carrying the code go; none present => output identical).
+PROBE_CODES = ("arg-type", "call-arg", "call-overload", "operator", "attr-defined", "union-attr", "index", "misc",
+               "return-value", "assignment", "type-var", "valid-type", "name-defined", "override")
 Q_FILES = 12
 Q_ANCHORS = ("check-errorcodes.test", "check-ignore.test")  # always in the quick slice: the densest ignore/unused-ignore inputs
 Q_PER_FILE = 50
@@ -321,6 +327,18 @@ def disable_variants(base: dict, prog: dict) -> list[tuple[str, str, list[str], 
             out.append(("disable-super", c, ["--disable-error-code", sup.code], None))
         if not has_cfg:
             out.append(("per-module", c, ["--config-file", "c13.ini"], {"c13.ini": f"[mypy]\n[mypy-__main__]\ndisable_error_code = {c}\n"}))
+    # probe codes that the output does not show: all of them at once for every program (global and per-module),
+    # and one by one for programs that contain a watcher-guarded construct (cheap AST scan, see probe_scan)
+    absent = [c for c in PROBE_CODES if c not in present]
+    if absent:
+        joined = ",".join(absent)
+        out.append(("probe-all", joined, [x for c in absent for x in ("--disable-error-code", c)], None))
+        if not has_cfg:
+            out.append(("probe-all-per-module", joined, ["--config-file", "c13.ini"],
+                        {"c13.ini": f"[mypy]\n[mypy-__main__]\ndisable_error_code = {', '.join(absent)}\n"}))
+        if prog.get("probe_individual"):
+            for c in absent:
+                out.append(("probe", c, ["--disable-error-code", c], None))
     return out
 
 
@@ -329,20 +347,21 @@ def codes_after(base: dict, variant: str, c: str) -> dict[str, tuple[set[str], s
     from mypy.errorcodes import error_codes
 
     out = {}
+    cs = set(c.split(","))
     for f, (dis, en) in base["file_codes"].items():
         dis, en = set(dis), set(en)
-        if variant == "disable":
-            dis = (dis | {c}) - en
+        if variant in ("disable", "probe", "probe-all"):
+            dis = (dis | cs) - en
         elif variant == "disable-super":
             s = error_codes[c].sub_code_of.code
             dis = (dis | {s}) - en
         elif variant == "disable+enable":
-            en = en | {c}
-            dis = (dis | {c}) - en
-        elif variant == "per-module":
+            en = en | cs
+            dis = (dis | cs) - en
+        elif variant in ("per-module", "probe-all-per-module"):
             if f == MAIN:
-                dis = dis | {c}
-                en = en - {c}
+                dis = dis | cs
+                en = en - cs
         out[f] = (dis, en)
     return out
 
@@ -383,6 +402,8 @@ def check_disable_run(prog: dict, base: dict, variant: str, c: str, extra: list[
         stats["order_only_differences"] += 1
     stats["evaluations"] += 1
     stats[f"runs:{variant}"] += 1
+    if variant.startswith("probe") and not pr.removed:
+        stats["probe_runs_expected_identical_to_baseline"] += 1
     if pr.removed:
         stats["disable_runs_removing_something"] += 1
         if any(i.severity == "note" for i in pr.removed):
@@ -393,11 +414,11 @@ def check_disable_run(prog: dict, base: dict, variant: str, c: str, extra: list[
         return []
     from mypy.errorcodes import error_codes
 
-    target = error_codes[c].sub_code_of.code if variant == "disable-super" else c
+    targets = {error_codes[c].sub_code_of.code} if variant == "disable-super" else set(c.split(","))
 
     def relation(f: str, ln: int, code: str) -> str:
         cc = error_codes.get(code)
-        same = cc is not None and (cc.code == target or (cc.sub_code_of is not None and cc.sub_code_of.code == target))
+        same = cc is not None and (cc.code in targets or (cc.sub_code_of is not None and cc.sub_code_of.code in targets))
         return "same-code" if same else "other-code"
 
     out = []
@@ -594,6 +615,45 @@ def run_batch(work: list[tuple[dict, Any]]) -> dict:
 # --------------------------------------------------------------------------- corpus selection
 
 
+_OP_DUNDERS = {f"__{p}{n}__" for p in ("", "r", "i") for n in (
+    "add", "sub", "mul", "matmul", "truediv", "floordiv", "mod", "divmod", "pow", "lshift", "rshift", "and", "or", "xor")} | {
+    "__lt__", "__le__", "__gt__", "__ge__", "__eq__", "__ne__", "__contains__", "__getitem__", "__setitem__", "__neg__",
+    "__pos__", "__invert__", "__call__", "__iter__", "__next__", "__enter__", "__exit__", "__get__", "__set__"}
+
+
+def probe_scan(prog: dict) -> bool:
+    """Cheap AST scan (regex fallback for unparsable text): does the program contain a construct the checker
+    resolves by probing under an ErrorWatcher - an @overload, an operator/protocol dunder defined on a class,
+    an await / async construct, or a Union/Optional/`X | Y` annotation together with an attribute access?
+    Only decides for which programs the absent probe codes are ALSO disabled one by one."""
+    import ast
+    import re
+
+    for text in [prog["main"], *[t for n, t in prog["files"].items() if n.endswith((".py", ".pyi")) and n not in
+                                  ("builtins.pyi", "typing.pyi", "_typeshed.pyi")]]:
+        try:
+            tree = ast.parse(text)
+        except (SyntaxError, ValueError, RecursionError):
+            if re.search(r"\boverload\b|\bawait\b|\basync\b|\bUnion\b|\bOptional\b|def __[a-z]+__", text):
+                return True
+            continue
+        union = attr = False
+        for n in ast.walk(tree):
+            if isinstance(n, (ast.Await, ast.AsyncFunctionDef, ast.AsyncFor, ast.AsyncWith)):
+                return True
+            if isinstance(n, (ast.Name, ast.Attribute)) and (getattr(n, "id", None) or getattr(n, "attr", None)) == "overload":
+                return True
+            if isinstance(n, ast.FunctionDef) and n.name in _OP_DUNDERS:
+                return True
+            if isinstance(n, ast.Name) and n.id in ("Union", "Optional") or isinstance(n, ast.BinOp) and isinstance(n.op, ast.BitOr):
+                union = True
+            if isinstance(n, ast.Attribute):
+                attr = True
+        if union and attr:
+            return True
+    return False
+
+
 def estimate_error_lines(c: corpus.Case) -> int:
     """Only used to balance the work queue (the corpus marks expected errors as `# E:` / in [out])."""
     import re
@@ -610,8 +670,8 @@ def work_items(progs: list[dict]) -> list[list[tuple[dict, Any]]]:
     """Queue of work items, most expensive first (longest-processing-time packing over the 16 workers):
     a program with more than 5 expected error lines is split into its 10 (kind, warn) slices + the rest."""
 
-    def cost(n: int) -> int:  # ~ number of perturbed runs of the ignore family
-        return 10 * ((2 ** n - 1) if n <= MAX_FULL_SUBSETS else (n + n * (n - 1) // 2 + 1)) + 8
+    def cost(n: int, probed: bool = False) -> int:  # ~ number of perturbed runs
+        return 10 * ((2 ** n - 1) if n <= MAX_FULL_SUBSETS else (n + n * (n - 1) // 2 + 1)) + 10 + (12 if probed else 0)
 
     items: list[tuple[int, list[tuple[dict, Any]]]] = []
     light: list[dict] = []
@@ -621,14 +681,14 @@ def work_items(progs: list[dict]) -> list[list[tuple[dict, Any]]]:
             for kind in KINDS:
                 for warn in ("off", "on"):
                     items.append((cost(n) // 10, [(p, ("ignore", kind, warn))]))
-            items.append((20, [(p, "rest")]))
+            items.append((35, [(p, "rest")]))
         else:
             light.append(p)
     cur: list[tuple[dict, Any]] = []
     acc = 0
     for p in sorted(light, key=lambda p: -p["est_lines"]):
         cur.append((p, None))
-        acc += cost(p["est_lines"])
+        acc += cost(p["est_lines"], p["probe_individual"])
         if acc >= 120 or len(cur) >= 8:
             items.append((acc, cur))
             cur, acc = [], 0
@@ -666,8 +726,10 @@ def select_programs(ctx: Ctx) -> tuple[list[dict], dict]:
             n += 1
             p = lane.program_of(c)
             p["est_lines"] = estimate_error_lines(c)
+            p["probe_individual"] = ctx.quick or probe_scan(p)  # quick: every program; thorough: AST-selected ones
             progs.append(p)
     info["files"] = [os.path.basename(f) for f in files]
+    info["programs_probed_code_by_code (AST scan)"] = sum(1 for p in progs if p["probe_individual"])
     info["cases_not_used"] = dict(skipped)
     return progs, info
 
@@ -707,7 +769,8 @@ def run(ctx: Ctx) -> Result:
         "distinct_baseline_outcomes (n_messages, blocker, n_lines)": len(outcomes),
         "bounds": {"subset_rule": f"all subsets when <= {MAX_FULL_SUBSETS} annotatable error lines, else size<=2 + full set",
                    "kinds": list(KINDS), "warn_unused_ignores": ["off", "on"],
-                   "disable_variants": ["disable", "disable+enable", "disable-super", "per-module"],
+                   "disable_variants": ["disable", "disable+enable", "disable-super", "per-module", "probe-all", "probe-all-per-module", "probe"],
+                   "probe_codes": list(PROBE_CODES),
                    "quick_slice": f"{Q_FILES} files ({len(Q_ANCHORS)} fixed + seed-selected), first {Q_PER_FILE} usable cases each" if ctx.quick else "all files"},
         "samples": samples[:3],
         "counters": dict(sorted(stats.items())),
